@@ -17,6 +17,10 @@ import (
 	"strings"
 	"time"
 
+	gogit "github.com/go-git/go-git/v5"
+	"github.com/go-git/go-git/v5/plumbing"
+
+	"github.com/MichaelMure/git-bug/cache"
 	"github.com/MichaelMure/git-bug/entities/bug"
 	"github.com/MichaelMure/git-bug/entities/identity"
 	"github.com/MichaelMure/git-bug/entity"
@@ -95,7 +99,204 @@ func (r *runner) Run(caseID string) Obs {
 		o1.Verdict2, o1.Err2 = o2.Verdict, o2.Err
 		return o1
 	}
+	if strings.HasPrefix(c.Reader, "session:") {
+		return r.session(dir, b, exp, strings.TrimPrefix(c.Reader, "session:"))
+	}
 	return r.reader(dir, b, exp, c.Reader)
+}
+
+// session is the third reader: one long-lived cache.RepoCache on a victim replica. It first pulls
+// the early state (the author's first identity version, the first two commits of the bug: the
+// author is resolved through the cache's resolvers), then, still open, pulls the rest:
+//
+//	order "one":       identity versions and commits in one pull
+//	order "id-first":  the identity versions in a first pull, the commits in a second one
+//	order "bug-first": the commits first (judged with the identity version the session knows), the identity versions after
+//
+// The remote is a copy of repository A whose refs are moved from the early to the final state.
+func (r *runner) session(dir string, b *Built, exp Expected, order string) Obs {
+	obs := Obs{Expected: exp, SignedBy: b.SignedBy}
+	dirR := filepath.Join(dir, "R")
+	if err := world.CopyTree(b.Dir, dirR); err != nil {
+		return Obs{Harness: err.Error()}
+	}
+	repoA, err := repository.OpenGoGitRepo(b.Dir, world.Namespace, nil)
+	if err != nil {
+		return Obs{Harness: err.Error()}
+	}
+	final, err := gitBugRefs(repoA)
+	repoA.Close()
+	if err != nil {
+		return Obs{Harness: err.Error()}
+	}
+	rr, err := gogit.PlainOpen(dirR)
+	if err != nil {
+		return Obs{Harness: err.Error()}
+	}
+	serve := func(idRefs, bugRefs map[string]string) error {
+		for name := range final {
+			want := bugRefs[name]
+			if strings.HasPrefix(name, "refs/identities/") {
+				want = idRefs[name]
+			}
+			if want == "" {
+				if err := rr.Storer.RemoveReference(plumbing.ReferenceName(name)); err != nil {
+					return err
+				}
+				continue
+			}
+			if err := rr.Storer.SetReference(plumbing.NewHashReference(plumbing.ReferenceName(name), plumbing.NewHash(want))); err != nil {
+				return err
+			}
+		}
+		return nil
+	}
+	// the victim: its own user, a remote, a cache session
+	repoB, err := repository.InitGoGitRepo(filepath.Join(dir, "B"), world.Namespace)
+	if err != nil {
+		return Obs{Harness: err.Error()}
+	}
+	defer repoB.Close()
+	carol, err := identity.NewIdentity(repoB, "Carol", "carol@example.org")
+	if err != nil {
+		return Obs{Harness: err.Error()}
+	}
+	if err := carol.Commit(repoB); err != nil {
+		return Obs{Harness: err.Error()}
+	}
+	if err := identity.SetUserIdentity(repoB, carol); err != nil {
+		return Obs{Harness: err.Error()}
+	}
+	if err := repoB.AddRemote("origin", world.Scheme+"://"+filepath.Join(dirR, ".git")); err != nil {
+		return Obs{Harness: err.Error()}
+	}
+	rc, err := cache.NewRepoCacheNoEvents(repoB)
+	if err != nil {
+		return Obs{Harness: "open cache: " + err.Error()}
+	}
+	pull := func() (map[entity.Id]entity.MergeResult, string) {
+		if _, err := rc.Fetch("origin"); err != nil {
+			return nil, "fetch: " + err.Error()
+		}
+		out := map[entity.Id]entity.MergeResult{}
+		n := 0
+		for res := range rc.MergeAll("origin") {
+			n++
+			if res.Id == "" && res.Err != nil {
+				return nil, "merge: " + res.Err.Error()
+			}
+			out[res.Id] = res
+		}
+		if refs, _ := repoB.ListRefs("refs/remotes/origin/"); n < len(refs) {
+			time.Sleep(1500 * time.Millisecond) // a producer died: let the process go down with it
+			return nil, "merge stream ended early"
+		}
+		return out, ""
+	}
+	visible := func() (bool, string) {
+		bc, err := rc.Bugs().Resolve(b.Bug)
+		if err != nil {
+			return false, err.Error()
+		}
+		for _, c := range bc.Snapshot().Comments {
+			if strings.Contains(c.Message, "the tested commit") || strings.Contains(c.Message, "the altered commit") {
+				return true, ""
+			}
+		}
+		return false, ""
+	}
+	// early state
+	if err := serve(b.Early, b.Early); err != nil {
+		return Obs{Harness: err.Error()}
+	}
+	res, herr := pull()
+	if herr != "" {
+		return Obs{Harness: "early pull: " + herr}
+	}
+	if st := res[b.Bug]; st.Err != nil || st.Status != entity.MergeStatusNew {
+		return Obs{Harness: fmt.Sprintf("early pull: bug reported %v %v %s", st.Status, st.Err, st.Reason)}
+	}
+	if v, e := visible(); v || e != "" {
+		return Obs{Harness: "early state: tested commit visible / bug not resolvable: " + e}
+	}
+	// the rest
+	var judged entity.MergeResult
+	switch order {
+	case "one":
+		if err := serve(final, final); err != nil {
+			return Obs{Harness: err.Error()}
+		}
+		if res, herr = pull(); herr != "" {
+			return Obs{Harness: herr}
+		}
+		judged = res[b.Bug]
+	case "id-first":
+		if err := serve(final, b.Early); err != nil {
+			return Obs{Harness: err.Error()}
+		}
+		if res, herr = pull(); herr != "" {
+			return Obs{Harness: herr}
+		}
+		if err := serve(final, final); err != nil {
+			return Obs{Harness: err.Error()}
+		}
+		if res, herr = pull(); herr != "" {
+			return Obs{Harness: herr}
+		}
+		judged = res[b.Bug]
+	case "bug-first":
+		// only the bug under test moves; the session judges it with the identity version it has
+		bugsFirst := map[string]string{}
+		for k, v := range b.Early {
+			bugsFirst[k] = v
+		}
+		bugsFirst["refs/bugs/"+b.Bug.String()] = final["refs/bugs/"+b.Bug.String()]
+		if err := serve(b.Early, bugsFirst); err != nil {
+			return Obs{Harness: err.Error()}
+		}
+		if res, herr = pull(); herr != "" {
+			return Obs{Harness: herr}
+		}
+		judged = res[b.Bug]
+		early, err := ExpectKnowing(b, 1)
+		if err != nil {
+			return Obs{Harness: "reference: " + err.Error()}
+		}
+		obs.Expected = early
+		if err := serve(final, final); err != nil {
+			return Obs{Harness: err.Error()}
+		}
+		if _, herr = pull(); herr != "" {
+			return Obs{Harness: herr}
+		}
+	default:
+		return Obs{Harness: "unknown session order " + order}
+	}
+	switch {
+	case judged.Err != nil:
+		obs.Verdict, obs.Err = "error", judged.Err.Error()
+	case judged.Status == entity.MergeStatusInvalid:
+		obs.Verdict, obs.Err = "error", judged.Reason
+	case judged.Status == entity.MergeStatusUpdated:
+		obs.Verdict = "accepted"
+	default:
+		return Obs{Harness: fmt.Sprintf("the session reported status %v for the bug", judged.Status)}
+	}
+	v, e := visible()
+	if e != "" {
+		obs.Verdict2, obs.Err2 = "error", "bug not resolvable through the session: "+e
+	} else if v {
+		obs.Verdict2 = "accepted"
+	} else {
+		obs.Verdict2 = "error"
+	}
+	if err := rc.Close(); err != nil {
+		return Obs{Harness: "close cache: " + err.Error()}
+	}
+	if len(obs.Err) > 300 {
+		obs.Err = obs.Err[:300]
+	}
+	return obs
 }
 
 func (r *runner) reader(dir string, b *Built, exp Expected, reader string) Obs {
@@ -353,6 +554,22 @@ func Evaluate(c Case, res subproc.Result) (f *Finding, obs Obs, harness string) 
 		}
 		return nil, obs, ""
 	}
+	if strings.HasPrefix(c.Reader, "session:") {
+		when := "no-key-in-force"
+		if exp.InForce > 0 {
+			when = "keys-in-force"
+		}
+		what := map[string]string{"error": "refused", "accepted": "accepted"}
+		detail := fmt.Sprintf("case %s: one cache session that resolved the author early, then pulled the rest (%s); commit at logical time %d, versions created at %v (known to the session when it judged), %d key(s) in force, signed=%v (by %s), valid under a key in force=%v; merge report: %s %s; operation visible through the session's cache: %v",
+			c.ID(), strings.TrimPrefix(c.Reader, "session:"), exp.T, exp.Times, exp.InForce, exp.Signed, obs.SignedBy, exp.Valid, obs.Verdict, obs.Err, obs.Verdict2 == "accepted")
+		if obs.Verdict != want {
+			return &Finding{"verdict", fmt.Sprintf("session-reader/%s-%s/%s pulls=%s (expected %s)", signerClass(c), when, what[obs.Verdict], strings.TrimPrefix(c.Reader, "session:"), want), detail}, obs, ""
+		}
+		if obs.Verdict2 != obs.Verdict {
+			return &Finding{"verdict", fmt.Sprintf("session-reader/%s-%s/report-%s-but-cache-shows-%s pulls=%s", signerClass(c), when, what[obs.Verdict], map[string]string{"error": "nothing", "accepted": "the-operation"}[obs.Verdict2], strings.TrimPrefix(c.Reader, "session:")), detail + " " + obs.Err2}, obs, ""
+		}
+		return nil, obs, ""
+	}
 	if obs.Verdict != want && exp.TimesDiffer {
 		// the versions do not record the logical time at which they were created: the key history
 		// built through the API (Identity.Mutate + Commit) is not the one the reader applies
@@ -431,6 +648,17 @@ func Main(args []string) {
 					cases = append(cases, Case{H: h, Pos: pos, Signer: signer, Reader: reader, Late: true})
 				}
 			}
+			// third reader: one long-lived cache session that resolved the author before the key changes
+			if len(h) > 0 {
+				for _, signer := range []string{"K1", "K2", "K3", "nobody", "altered-tree"} {
+					for _, order := range []string{"one", "id-first", "bug-first"} {
+						if tier != "thorough" && len(h) == 3 && (order != "one" || (signer != "K1" && signer != "nobody")) {
+							continue // quick tier, histories of three changes: one pull, two signers
+						}
+						cases = append(cases, Case{H: h, Pos: pos, Signer: signer, Reader: "session:" + order})
+					}
+				}
+			}
 			// the tested commit as a join commit with an empty pack
 			for _, signer := range JoinSigners {
 				for _, reader := range []string{"read", "merge"} {
@@ -480,7 +708,7 @@ func Main(args []string) {
 	rawVerdicts := map[string]int{}
 	outcomes := map[string]bool{}
 	var samples []any
-	executed, skipped, crashes, harnessErrs, unspecified, joinCases, rawCases, lateCases := 0, 0, 0, 0, 0, 0, 0, 0
+	executed, skipped, crashes, harnessErrs, unspecified, joinCases, rawCases, lateCases, sessionCases := 0, 0, 0, 0, 0, 0, 0, 0, 0
 	expAccept, expReject, boundary := 0, 0, 0
 	exhaustive := true
 	const batch = 2000
@@ -521,6 +749,9 @@ func Main(args []string) {
 			}
 			if c.Late {
 				lateCases++
+			}
+			if strings.HasPrefix(c.Reader, "session:") {
+				sessionCases++
 			}
 			if strings.HasPrefix(c.Signer, "raw:") {
 				rawCases++
@@ -617,6 +848,7 @@ func Main(args []string) {
 		"signers":                           Signers,
 		"join_commit_signers":               JoinSigners,
 		"late_identity_cases":               lateCases,
+		"session_reader_cases":              sessionCases,
 		"raw_object_alterations":            RawAlterations,
 		"raw_object_cases":                  rawCases,
 		"raw_object_verdicts":               rawVerdicts,
@@ -633,6 +865,7 @@ func Main(args []string) {
 	ev := evidence.Evidence{PropertyID: "C08", Tier: tier, Seed: seed, Level: "exploration", Coverage: cov,
 		Assumptions: []string{
 			"every case is built by git-bug itself (identity versions, bug commits, signatures through StoreSignedCommit; the signer is chosen by an identity.Interface wrapper overriding SigningKey only) and read by the real bug.Read / MergeAll in a worker subprocess; a dead worker is the observation 'crash'",
+			"third reader 'session': one cache.RepoCache on a victim replica pulls the early state (author resolved through the cache's resolvers), stays open and Fetch+MergeAll's the identity versions and the later commits in one pull, identity first, or commits first (then judged with the identity version the session knows); verdict = the merge report, which must agree with what the session's cache shows",
 			"readers resolve the author from git, so keys are public-only, as for every reader other than the author's own process",
 			"the identity versions are made through the real API (identity.NewIdentity / Identity.Mutate + Commit) in a repository whose bug clocks advance between the steps; the logical time of a version is the value of the bug edit clock read right before it is created, not what the version recorded (a difference is reported with the verdicts it changes)",
 			"the reference evaluates keysInForce(history, T) = key set of the last version whose creation time <= T (key sets from the stored version blobs), and checks signatures with the OpenPGP packet primitives directly on the commit as stored",
